@@ -43,23 +43,29 @@ type Tap struct {
 	OnDelivered func(n int, r *Rec)
 }
 
+// add logs the envelope as delivered *before* it is handed over (the writer holds the
+// direction's semaphore, so log order = delivery order, and a reader that reacts to the
+// envelope can never run ahead of the log); undeliver retracts it if the hand-over fails.
 func (t *Tap) add(dir int, rpc *Rpc) *Rec {
 	r := &Rec{Dir: dir, Rpc: proto.Clone(rpc).(*Rpc)}
 	t.mu.Lock()
 	r.Seq = Tick()
+	t.delivered++
+	r.Delivered = true
+	r.N = t.delivered
 	t.log = append(t.log, r)
 	t.mu.Unlock()
 	return r
 }
 
-func (t *Tap) markDelivered(r *Rec) int {
+func (t *Tap) undeliver(r *Rec) {
 	t.mu.Lock()
-	t.delivered++
-	r.Delivered = true
-	r.N = t.delivered
-	n := t.delivered
+	r.Delivered = false
 	t.mu.Unlock()
-	return n
+}
+
+func (t *Tap) markDelivered(r *Rec) int {
+	return r.N
 }
 
 // Log returns the delivered envelopes in wire order.
@@ -296,6 +302,7 @@ func (e *End) Write(ctx context.Context, rpc *Rpc) error {
 		err = ErrKill
 	}
 	if err != nil {
+		e.l.Tap.undeliver(rec)
 		<-sem
 		return err
 	}
